@@ -394,67 +394,134 @@ def c_table(tu, is_set):
 # ---------------------------------------------------------------------------
 # Python interpreter
 
+class _Cur(object):
+    __slots__ = ("c",)
+
+    def __init__(self, c):
+        self.c = c
+
+
+class _Fn(object):
+    __slots__ = ("node", "frame")
+
+    def __init__(self, node, frame):
+        self.node, self.frame = node, frame
+
+
+class _Conflict(object):
+    __slots__ = ("reason",)
+
+    def __init__(self, reason):
+        self.reason = reason
+
+
+class _Sink(object):
+    """A container that receives output: result / result._keys / result._values
+    or a local list that is later installed as the result's contents."""
+    __slots__ = ("name",)
+
+    def __init__(self, name):
+        self.name = name
+
+
+class _Frame(object):
+    def __init__(self, parent=None):
+        self.vars = {}
+        self.parent = parent
+
+    def get(self, name):
+        f = self
+        while f is not None:
+            if name in f.vars:
+                return f.vars[name]
+            f = f.parent
+        raise KeyError(name)
+
+
+class _Return(Exception):
+    def __init__(self, value):
+        self.value = value
+
+
 class PyInterp(object):
+    """First action of the Python merge for one valuation: a small interpreter
+    over the statement kinds the merge uses (if / while / for over a literal
+    tuple / raise / calls of local, module-level and passed-in functions)."""
+
     def __init__(self, fn, v, names=("i_old", "i_com", "i_new")):
         self.fn = fn
         self.v = v
-        self.cur = dict(zip(names, CUR))
-        self.env = {}
+        self.top = _Frame()
+        for n, c in zip(names, CUR):
+            self.top.vars[n] = _Cur(c)
+        for n in fn.body:
+            if isinstance(n, ast.FunctionDef):
+                self.top.vars[n.name] = _Fn(n, self.top)
+        for st in fn.body:
+            # output containers created before the walk
+            if isinstance(st, ast.Assign) and len(st.targets) == 1 and isinstance(st.targets[0], ast.Name):
+                val = st.value
+                if isinstance(val, (ast.List,)) and not val.elts:
+                    self.top.vars[st.targets[0].id] = _Sink(st.targets[0].id)
+                elif isinstance(val, ast.Call) and not val.args and st.targets[0].id == "result":
+                    self.top.vars["result"] = _Sink("result")
+        self.module_funcs = pyfront.functions(pyfront.base_py())
         self.act = Action()
-        self.defs = {n.name: n for n in fn.body if isinstance(n, ast.FunctionDef)}
+        self.sinks = set()
+        self.depth = 0
 
-    def _cur(self, e, bind=None):
-        if isinstance(e, ast.Name):
-            if bind and e.id in bind:
-                return bind[e.id]
-            return self.cur.get(e.id)
+    # ---- values ---------------------------------------------------------
+    def lookup(self, name, fr, node=None):
+        try:
+            return fr.get(name)
+        except KeyError:
+            pass
+        f = self.module_funcs.get(name)
+        if f is not None:
+            return _Fn(f, None)
+        raise AnalysisError("merge table (py): unknown name %s line %s" % (
+            name, getattr(node, "lineno", "?")))
+
+    def _attr(self, e, fr):
+        """(cursor, attr) for <cursor>.attr"""
+        if isinstance(e, ast.Attribute) and isinstance(e.value, ast.Name):
+            try:
+                c = self.lookup(e.value.id, fr)
+            except AnalysisError:
+                return None
+            if isinstance(c, _Cur):
+                return c.c, e.attr
         return None
 
-    def _attr(self, e, bind=None):
-        """(cursor, attr) for i_X.attr"""
-        if isinstance(e, ast.Attribute):
-            c = self._cur(e.value, bind)
-            if c is not None:
-                return c, e.attr
-        return None
-
-    def ev(self, e, bind=None):
+    def ev(self, e, fr):
         if isinstance(e, ast.Constant):
             return e.value
         if isinstance(e, ast.Name):
-            if e.id in self.env:
-                return self.env[e.id]
-            raise AnalysisError("merge table (py): unknown name %s line %s" % (e.id, e.lineno))
+            return self.lookup(e.id, fr, e)
+        if isinstance(e, ast.Tuple):
+            return tuple(self.ev(x, fr) for x in e.elts)
         if isinstance(e, ast.UnaryOp) and isinstance(e.op, ast.Not):
-            return not self.ev(e.operand, bind)
+            return not self.ev(e.operand, fr)
         if isinstance(e, ast.BoolOp):
-            vals = e.values
             if isinstance(e.op, ast.And):
-                for x in vals:
-                    if not self.ev(x, bind):
+                for x in e.values:
+                    if not self.ev(x, fr):
                         return False
                 return True
-            for x in vals:
-                if self.ev(x, bind):
+            for x in e.values:
+                if self.ev(x, fr):
                     return True
             return False
-        a = self._attr(e, bind)
+        a = self._attr(e, fr)
         if a is not None:
             if a[1] == "active":
                 return self.v.live[a[0]]
             raise AnalysisError("merge table (py): bare use of %s" % pyfront.unparse(e))
         if isinstance(e, ast.Call):
-            fname = pyfront.unparse(e.func)
-            if fname == "compare" and len(e.args) == 2:
-                x, y = self._attr(e.args[0], bind), self._attr(e.args[1], bind)
-                if x and y and x[1] == "key" and y[1] == "key":
-                    return self.v.sg(x[0], y[0])
-            if fname == "len":
-                raise _Stop()
-            raise AnalysisError("merge table (py): call %s line %s" % (fname, e.lineno))
+            return self.call(e, fr)
         if isinstance(e, ast.Compare) and len(e.ops) == 1:
             l, r, op = e.left, e.comparators[0], e.ops[0]
-            x, y = self._attr(l, bind), self._attr(r, bind)
+            x, y = self._attr(l, fr), self._attr(r, fr)
             if x and y and x[1] == "value" and y[1] == "value" and isinstance(op, (ast.Eq, ast.NotEq)):
                 res = self.v.ve(x[0], y[0])
                 return res if isinstance(op, ast.Eq) else not res
@@ -463,89 +530,155 @@ class PyInterp(object):
                 return self.v.pos1[x[0]]
             if x and x[1] == "key" or y and y[1] == "key":
                 raise AnalysisError("merge table (py): direct key comparison %s" % pyfront.unparse(e))
-            a, b = self.ev(l, bind), self.ev(r, bind)
+            a, b = self.ev(l, fr), self.ev(r, fr)
             return {ast.Eq: a == b, ast.NotEq: a != b, ast.Lt: a < b, ast.Gt: a > b,
                     ast.LtE: a <= b, ast.GtE: a >= b}[type(op)]
         raise AnalysisError("merge table (py): unrecognised expression %s line %s"
                             % (pyfront.unparse(e)[:60], getattr(e, "lineno", "?")))
 
-    def call_stmt(self, c, bind=None):
+    # ---- calls ----------------------------------------------------------------
+    def call(self, c, fr):
         fname = pyfront.unparse(c.func)
-        # it.advance()
+        if fname == "compare" and len(c.args) == 2:
+            x, y = self._attr(c.args[0], fr), self._attr(c.args[1], fr)
+            if x and y and x[1] == "key" and y[1] == "key":
+                return self.v.sg(x[0], y[0])
+            raise AnalysisError("merge table (py): compare(%s)" % pyfront.unparse(c))
+        if fname == "len":
+            raise _Stop()
+        if fname == "BTreesConflictError" and len(c.args) == 4:
+            return _Conflict(self.ev(c.args[3], fr))
+        # cursor.advance()
         if isinstance(c.func, ast.Attribute) and c.func.attr == "advance":
-            cu = self._cur(c.func.value, bind)
-            if cu is None:
+            a = self._attr(c.func, fr)
+            if a is None:
                 raise AnalysisError("merge table (py): advance on %s" % fname)
-            self.act.adv.append(cu)
-            return
-        # result._keys.append(it.key) / result._values.append(it.value)
+            self.act.adv.append(a[0])
+            return None
+        # sink.append(cursor.key) / result._keys.append / result._values.append
         if isinstance(c.func, ast.Attribute) and c.func.attr == "append" and len(c.args) == 1:
-            a = self._attr(c.args[0], bind)
-            tgt = pyfront.unparse(c.func.value)
-            if a and tgt == "result._keys" and a[1] == "key":
-                self.act.outk.append(a[0])
-                return
-            if a and tgt == "result._values" and a[1] == "value":
-                self.act.outv.append(a[0])
-                return
-        if isinstance(c.func, ast.Name) and c.func.id in self.defs:
-            d = self.defs[c.func.id]
+            a = self._attr(c.args[0], fr)
+            tgt = c.func.value
+            tname = pyfront.unparse(tgt)
+            base = tgt
+            while isinstance(base, ast.Attribute):
+                base = base.value
+            sink = None
+            if isinstance(base, ast.Name):
+                try:
+                    sink = self.lookup(base.id, fr)
+                except AnalysisError:
+                    sink = None
+            if a and isinstance(sink, _Sink):
+                what = tname[len(base.id):]
+                if a[1] == "key" and what in ("", "._keys"):
+                    self.act.outk.append(a[0])
+                    self.sinks.add(sink.name + what)
+                    return None
+                if a[1] == "value" and what in ("._values",):
+                    self.act.outv.append(a[0])
+                    self.sinks.add(sink.name + what)
+                    return None
+            raise AnalysisError("merge table (py): unrecognised call %s line %s" % (fname, c.lineno))
+        f = None
+        if isinstance(c.func, ast.Name):
+            f = self.lookup(c.func.id, fr, c)
+        elif isinstance(c.func, ast.Attribute) and pyfront.unparse(c.func.value) == "self":
+            r = pyfront.resolve(pyfront.base_py(), self._kind_of_fn(), c.func.attr)
+            if r is not None and r[1] is not None:
+                f = _Fn(r[1], None)
+        if isinstance(f, _Fn):
+            d = f.node
             params = [p.arg for p in d.args.args]
-            b = {}
-            for p, arg in zip(params, c.args):
-                cu = self._cur(arg, bind)
-                if cu is not None:
-                    b[p] = cu
-                else:
-                    self.env[p] = self.ev(arg, bind)
-            self.block(d.body, b)
-            return
+            args = list(c.args)
+            if params and params[0] == "self" and isinstance(c.func, ast.Attribute):
+                params = params[1:]
+            nf = _Frame(f.frame)
+            for n2 in d.body:
+                if isinstance(n2, ast.FunctionDef):
+                    nf.vars[n2.name] = _Fn(n2, nf)
+            if len(args) > len(params):
+                raise AnalysisError("merge table (py): too many arguments for %s" % fname)
+            for p, arg in zip(params, args):
+                nf.vars[p] = self.ev(arg, fr)
+            for kw in c.keywords:
+                nf.vars[kw.arg] = self.ev(kw.value, fr)
+            self.depth += 1
+            try:
+                self.block(d.body, nf)
+                return None
+            except _Return as r:
+                return r.value
+            finally:
+                self.depth -= 1
         raise AnalysisError("merge table (py): unrecognised call %s line %s" % (fname, c.lineno))
 
-    def block(self, body, bind=None):
-        for st in body:
-            self.stmt(st, bind)
+    def _kind_of_fn(self):
+        return getattr(self, "kind", "Bucket")
 
-    def stmt(self, st, bind=None):
+    # ---- statements ---------------------------------------------------------------
+    def block(self, body, fr):
+        for st in body:
+            self.stmt(st, fr)
+
+    def _assign(self, t, val, fr, st):
+        if isinstance(t, ast.Name):
+            fr.vars[t.id] = val
+        elif isinstance(t, ast.Tuple) and isinstance(val, tuple) and len(t.elts) == len(val):
+            for tt, vv in zip(t.elts, val):
+                self._assign(tt, vv, fr, st)
+        else:
+            raise AnalysisError("merge table (py): assignment %s" % pyfront.unparse(st))
+
+    def stmt(self, st, fr=None):
+        fr = fr or self.top
         if isinstance(st, ast.If):
-            if self.ev(st.test, bind):
-                self.block(st.body, bind)
+            if self.ev(st.test, fr):
+                self.block(st.body, fr)
             else:
-                self.block(st.orelse, bind)
+                self.block(st.orelse, fr)
         elif isinstance(st, ast.While):
-            if self.ev(st.test, bind):
-                self.block(st.body, bind)
+            if self.ev(st.test, fr):
+                self.block(st.body, fr)
                 raise _Stop()
+        elif isinstance(st, ast.For):
+            items = self.ev(st.iter, fr)
+            if not isinstance(items, tuple):
+                raise AnalysisError("merge table (py): loop over %s" % pyfront.unparse(st.iter)[:50])
+            for it in items:
+                self._assign(st.target, it, fr, st)
+                self.block(st.body, fr)
         elif isinstance(st, ast.Raise):
-            exc = st.exc
-            if isinstance(exc, ast.Call):
-                name = pyfront.unparse(exc.func)
-                if name == "merge_error" and exc.args:
-                    self.act.err = self.ev(exc.args[0], bind)
-                    raise _Stop()
-                if name == "BTreesConflictError" and len(exc.args) == 4:
-                    self.act.err = self.ev(exc.args[3], bind)
-                    raise _Stop()
+            val = self.ev(st.exc, fr) if st.exc is not None else None
+            if isinstance(val, _Conflict):
+                self.act.err = val.reason
+                raise _Stop()
             raise AnalysisError("merge table (py): raise %s" % pyfront.unparse(st))
         elif isinstance(st, ast.Assign) and len(st.targets) == 1:
             t = st.targets[0]
-            if isinstance(t, ast.Name):
-                self.env[t.id] = self.ev(st.value, bind)
-            elif isinstance(t, ast.Subscript) and pyfront.unparse(t.value) == "result":
-                k, val = self._attr(t.slice, bind), self._attr(st.value, bind)
+            if isinstance(t, ast.Subscript) and isinstance(t.value, ast.Name) and \
+                    isinstance(self.lookup(t.value.id, fr, t), _Sink):
+                k, val = self._attr(t.slice, fr), self._attr(st.value, fr)
                 if not (k and val and k[1] == "key" and val[1] == "value"):
                     raise AnalysisError("merge table (py): %s" % pyfront.unparse(st))
                 self.act.outk.append(k[0])
                 self.act.outv.append(val[0])
-            elif pyfront.unparse(t) == "result._next":
+                self.sinks.add(t.value.id + "[]")
+            elif isinstance(t, ast.Attribute) and t.attr == "_next":
+                raise _Stop()
+            elif isinstance(t, ast.Name) and isinstance(st.value, ast.Call) and not st.value.args \
+                    and self.depth == 0 and pyfront.unparse(st.value.func).startswith(("type(self)", "self.__class__")):
+                # result = type(self)() after the walk
                 raise _Stop()
             else:
-                raise AnalysisError("merge table (py): assignment %s" % pyfront.unparse(st))
+                self._assign(t, self.ev(st.value, fr), fr, st)
         elif isinstance(st, ast.Expr) and isinstance(st.value, ast.Call):
-            self.call_stmt(st.value, bind)
+            self.ev(st.value, fr)
         elif isinstance(st, ast.Expr) and isinstance(st.value, ast.Constant):
             pass
         elif isinstance(st, ast.Return):
+            if self.depth > 0:
+                raise _Return(self.ev(st.value, fr) if st.value is not None else None)
             raise _Stop()
         elif isinstance(st, (ast.FunctionDef, ast.Pass)):
             pass
@@ -555,7 +688,7 @@ class PyInterp(object):
 
     def run(self, stmts):
         try:
-            self.block(stmts)
+            self.block(stmts, self.top)
             self.act.done = True
         except _Stop:
             if not (self.act.outk or self.act.adv or self.act.err is not None):
@@ -587,9 +720,17 @@ def py_table(kind):
     stmts = py_merge_statements(fn)
     is_set = kind == "Set"
     out = {}
+    sinks = set()
     for key, v in distinct_valuations(is_set).items():
-        out[key] = (v, PyInterp(fn, v).run(stmts).canon(v))
+        it = PyInterp(fn, v)
+        it.kind = kind
+        out[key] = (v, it.run(stmts).canon(v))
+        sinks |= it.sinks
+    py_table.sinks[kind] = sorted(sinks)
     return out, fn
+
+
+py_table.sinks = {}
 
 
 # ---------------------------------------------------------------------------
@@ -756,6 +897,48 @@ def py_prelude(kind):
         bad("empty-result refusal (10) missing", "an empty result must be refused with reason 10 after the walk", fn.lineno)
     if carry is None or carry[1] != "b_old._next":
         bad("successor link not carried (%s)" % (carry,), "result._next must be the original successor", fn.lineno)
+    else:
+        # nothing after the carry may reset it: the returned state is taken
+        # from the very object that received the link
+        robj = None
+        for s2 in fn.body:
+            if isinstance(s2, ast.Assign) and pyfront.unparse(s2.targets[0]).endswith("._next"):
+                robj = pyfront.unparse(s2.targets[0])[:-len("._next")]
+        rets = [s2 for s2 in fn.body[carry[0] + 1:] if isinstance(s2, ast.Return)]
+        if not rets or pyfront.unparse(rets[-1].value) != "%s.__getstate__()" % robj:
+            bad("the returned state is not %s.__getstate__()" % robj,
+                "the resolved state must be the state of the object that carries the successor link", fn.lineno)
+        for s2 in fn.body[carry[0] + 1:]:
+            if isinstance(s2, ast.Return):
+                continue
+            for c in ast.walk(s2):
+                hit = None
+                if isinstance(c, ast.Call) and isinstance(c.func, ast.Attribute) and \
+                        pyfront.unparse(c.func.value) == robj and c.func.attr != "__getstate__":
+                    hit = pyfront.unparse(c)[:60]
+                if isinstance(c, ast.Assign) and any(pyfront.unparse(t) in (robj, robj + "._next") for t in c.targets):
+                    hit = pyfront.unparse(c)[:60]
+                if hit:
+                    bad("successor link set before `%s`" % hit,
+                        "%s._next is assigned the original successor and then %s "
+                        "runs: a state loader / clear / rebinding resets the link, so "
+                        "the resolved state loses its successor and the leaf chain is "
+                        "cut when it is stored" % (robj, hit), s2.lineno)
+        # outputs collected in a local list have to be installed in that object
+        for sk in py_table.sinks.get(kind, []):
+            base = sk.split(".")[0].split("[")[0]
+            if base == robj:
+                continue
+            installed = False
+            for s2 in fn.body[last_loop + 1:]:
+                for c in ast.walk(s2):
+                    if isinstance(c, (ast.Call, ast.Assign)) and robj in pyfront.unparse(c) and \
+                            any(isinstance(x, ast.Name) and x.id == base for x in ast.walk(c)):
+                        installed = True
+            if not installed:
+                bad("merged entries collected in `%s` never reach %s" % (base, robj),
+                    "the walk appends its output to %s, but nothing installs it in the "
+                    "object whose state is returned" % base, fn.lineno)
     return findings, facts
 
 
